@@ -277,8 +277,17 @@ pub fn run(tier: Tier) -> i32 {
         let mut ext = b.clone();
         ext.extend_from_slice(&[0xaa, 0x00, 0xff]);
         all.push((format!("{n}+tail"), ext));
-        // truncated buffer: the error must be the same too
+        // truncated buffers: the outcome (an error, or whatever from_bytes says) must be the same too
         all.push((format!("{n}-cut"), b[..b.len() - 1].to_vec()));
+        for k in [2usize, 3, 4, 7, 11, 13] {
+            if k < b.len() {
+                all.push((format!("{n}-cut{k}"), b[..b.len() - k].to_vec()));
+            }
+        }
+        // a tail longer than a second frame
+        let mut ext2 = b.clone();
+        ext2.extend_from_slice(&[0x8d, 0x40, 0x62, 0x1d, 0x58, 0xc3, 0x82, 0xd6, 0x90, 0xc8, 0xac, 0x28, 0x63, 0xa7, 0x01]);
+        all.push((format!("{n}+frame"), ext2));
     }
     let results: Vec<(u64, usize, Vec<Violation>, usize)> = all
         .par_iter()
